@@ -35,7 +35,7 @@ def gen(choose):
 
 def strip(dump):
     d = json.loads(json.dumps(dump))
-    for t in d.get("templates", []):
+    for t in d.get("templates", []) + d.get("dyn_templates", []):
         for e in t.get("edges", []):
             e.pop("actname", None)   # XML-only attribute `action` defaults to "SKIP"; XTA has no syntax for it
     d.pop("queries", None)
@@ -214,6 +214,75 @@ def run_extras(arg):
     return part.result()
 
 
+# ---- nesting depth: the XML reader parses every text block on its own, the XTA parser reaches the same expression with the
+# surrounding process on its stack; nesting depth must not make the format observable ----------------------------------------
+DEPTH_FAMILIES = {      # (depth, name of an integer atom) -> text
+    "inline-if-chain": lambda n, v: "".join("%s == %d ? %d : " % (v, i, i) for i in range(n)) + "0",
+    "parentheses": lambda n, v: "(" * n + v + ")" * n,
+    "nested-quantifiers": lambda n, v: "".join("(forall (q%d : int[0,1]) " % i for i in range(n)) + v + " >= 0" + ")" * n,
+    "right-nested-or": lambda n, v: "".join("%s == %d || (" % (v, i) for i in range(n)) + v + " >= 0" + ")" * n,
+    "nested-calls": lambda n, v: "dfn(" * n + v + ")" * n,
+    "unary-minus": lambda n, v: "- " * n + v,
+}
+DEPTH_PLACES = ("update", "guard", "initialiser")
+DEPTH_MAX = 200
+
+
+def depth_docs(family, place, n):
+    m = with_extras([("g", " const int kc = 3; int dfn(int a) { return a; }")])
+    x, a = MG.render_xml(m), MG.render_xta(m)
+    e = DEPTH_FAMILIES[family](n, "kc" if place == "initialiser" else "g2")
+    import re
+    if place == "update":
+        tgt = re.search(r"assign (g1 = \d+)", a).group(1)
+        new = "g1 = (%s) ? 1 : 0" % e if family in ("nested-quantifiers", "right-nested-or") else "g1 = " + e
+    elif place == "guard":
+        tgt = re.search(r"guard (g1 == \d+)", a).group(1)
+        new = e if family in ("nested-quantifiers", "right-nested-or") else "g1 == " + e
+    else:
+        tgt, new = "int dfn(int a) { return a; }", "int dfn(int a) { return a; } int dv = %s;" % (
+            "(%s) ? 1 : 0" % e if family in ("nested-quantifiers", "right-nested-or") else e)
+    assert tgt in a and xmlgen.esc(tgt) in x
+    return x.replace(xmlgen.esc(tgt), xmlgen.esc(new), 1), a.replace(tgt, new, 1)
+
+
+def run_depth(arg):
+    family, place = arg
+    part = engine.Part()
+    w = engine.worker("fast")
+    docs = [depth_docs(family, place, n) for n in range(1, DEPTH_MAX + 1)]
+    rx = xmlgen.run_docs(w, [d[0] for d in docs], want=["dump", "nosymtypes"], batch=35)
+    ra = xmlgen.run_docs(w, [d[1] for d in docs], want=["dump", "nosymtypes"], batch=35, kind="xta")
+    first = None
+    accepted = 0
+    for n, (x, a), px, pa in zip(range(1, DEPTH_MAX + 1), docs, rx, ra):
+        part.count()
+        rp = {"xml": {"op": "xml", "buf": x, "want": ["dump", "nosymtypes"]}, "xta": {"op": "xta", "buf": a, "want": ["dump", "nosymtypes"]},
+              "family": family, "place": place, "depth": n, "op": "xml", "buf": x}
+        if engine.check_crash(part, PID, px, "xml depth %s/%s/%d" % (family, place, n), rp) or \
+                engine.check_crash(part, PID, pa, "xta depth %s/%s/%d" % (family, place, n), rp):
+            continue
+        part.nontrivial_case("depth:%s:%s:%d" % (family, place, n))
+        mx, ma = xmlgen.msgs(px), xmlgen.msgs(pa)
+        same = mx == ma and px.get("exc") == pa.get("exc") and (mx or not MG.diff(strip(px["dump"]), strip(pa["dump"])))
+        if not mx and not ma:
+            accepted += 1
+        if same:
+            part.outcome("depth:equivalent/" + ("accepted" if not mx else "rejected-both"))
+        else:
+            part.outcome("depth:formats-differ")
+            if first is None:
+                first = (n, mx[:2], ma[:2], rp)
+    if first is not None:
+        n, mx, ma, rp = first
+        part.violation("nesting-depth:%s:%s:first-at=%d" % (family, place, n),
+                       "%s nested %d deep in the %s: xml %s vs xta %s (the smallest depth at which the two formats differ)" %
+                       (family, n, place, mx or "accepted", ma or "accepted"), rp)
+    if accepted == 0 and not os.environ.get("UTAPV_REPO"):
+        raise RuntimeError("C05 generator bug: depth family %s/%s is never accepted" % (family, place))
+    return part.result()
+
+
 def generic_path(p):
     import re
     return re.sub(r"\d+", "N", p)
@@ -233,7 +302,9 @@ def main():
                         "model as verbatim text in both renderings: %d texts (scalar sets, records, nested records, functions with every "
                         "statement kind, arrays over typedefs, channel priorities, meta/urgent/hybrid/double declarations, before/after "
                         "update, template-local types and functions, system-section declarations, progress measures, gantt charts) alone "
-                        "and in all ordered pairs." % (b, len(EXTRAS)))
+                        "and in all ordered pairs. Nesting depth: %d right-nested constructs at every depth 1..%d in an update, a guard and an "
+                        "initialiser (the XTA parser has the enclosing process on its stack, the XML reader parses each block alone)."
+                        % (b, len(EXTRAS), len(DEPTH_FAMILIES), DEPTH_MAX))
     prefs = choice.prefixes(gen, b)
     rep.extra["choice_sequences"] = len(prefs)
     n = engine.ncpu()
@@ -242,6 +313,8 @@ def main():
     for res in engine.pmap(run_shard, shards):
         rep.merge(res)
     for res in engine.pmap(run_extras, [(i, n) for i in range(n)]):
+        rep.merge(res)
+    for res in engine.pmap(run_depth, [(f, pl) for f in DEPTH_FAMILIES for pl in DEPTH_PLACES]):
         rep.merge(res)
     rep.assumptions = ["edge_t::actname is ignored (XML-only `action` attribute, default \"SKIP\")",
                        "diagnostics are compared as multisets of messages (positions are encoded per format)",
